@@ -40,6 +40,8 @@ type Plan struct {
 	Linger    bool `json:"linger,omitempty"`     // after N values keep the channel open until ctx is done
 	IgnoreCtx bool `json:"ignore_ctx,omitempty"` // the stream handler never looks at its context (keeps sending / lingering)
 	ElemPad   int  `json:"elem_pad,omitempty"`   // pad each stream element
+	RevStream    int `json:"rev_stream,omitempty"`     // the handler subscribes to a stream of this many elements served by the calling client
+	RevStreamPad int `json:"rev_stream_pad,omitempty"` // padding of every (odd) element of that stream
 	Bare      bool `json:"bare,omitempty"`       // subscribe through the method whose only result is the channel (no error result)
 	ChanCap   int  `json:"chan_cap,omitempty"`   // capacity of the channel the handler returns (at least Early)
 	Flood     bool `json:"flood,omitempty"`      // the producer never pauses: it keeps the returned channel's buffer full until the context ends (N is ignored)
@@ -225,6 +227,8 @@ type RevClient struct {
 	Slow  func(ctx context.Context, tok string) (string, error)
 	Boom  func(ctx context.Context, tok string) (string, error)
 	Event func(ctx context.Context, tok string) error `notify:"true"`
+	// Stream is served by the client: a reverse-direction subscription
+	Stream func(ctx context.Context, tok string, n int, pad int) (<-chan Item, error)
 	// Other lives on a second client-side handler, registered under its own namespace
 	Other func(ctx context.Context, tok string) (string, error) `rpc_method:"Rev2.Other"`
 }
@@ -267,6 +271,13 @@ func (a *TokAPI) body(ctx context.Context, tok string, plan Plan) (Result, error
 			continue
 		}
 		revs = append(revs, id)
+	}
+	if plan.RevStream > 0 {
+		if rc, ok := jsonrpc.ExtractReverseClient[RevClient](ctx); ok {
+			revs = append(revs, consumeRevStream(ctx, rc, tok, plan.RevStream, plan.RevStreamPad))
+		} else {
+			revs = append(revs, "!absent")
+		}
 	}
 	if plan.RevBurst > 0 {
 		if rc, ok := jsonrpc.ExtractReverseClient[RevClient](ctx); ok {
@@ -631,6 +642,56 @@ func (h *RevHandler) Ident(ctx context.Context, tok string) (string, error) {
 
 func (h *RevHandler) Aliased(ctx context.Context, tok string) (string, error) {
 	return h.ID + "/alias/" + tok, nil
+}
+
+// consumeRevStream reads a client-served stream to its close and summarises what arrived.
+func consumeRevStream(ctx context.Context, rc RevClient, tok string, n, pad int) string {
+	ch, err := rc.Stream(ctx, tok, n, pad)
+	if err != nil {
+		return "!stream-err:" + err.Error()
+	}
+	next := 0
+	for {
+		select {
+		case v, ok := <-ch:
+			if !ok {
+				if next != n {
+					return fmt.Sprintf("!stream-closed-after-%d-of-%d", next, n)
+				}
+				return fmt.Sprintf("stream-ok:%d", n)
+			}
+			if v.Tok != tok || v.Seq != next || v.Pad != revStreamPad(tok, v.Seq, pad) {
+				return fmt.Sprintf("!stream-got-%s/%d(pad %d)-expected-seq-%d", v.Tok, v.Seq, len(v.Pad), next)
+			}
+			next++
+		case <-time.After(5 * time.Second):
+			return fmt.Sprintf("!stream-stalled-after-%d-of-%d", next, n)
+		}
+	}
+}
+
+// revStreamPad: odd elements carry the padding, even ones are small.
+func revStreamPad(tok string, seq, pad int) string {
+	if seq%2 == 1 {
+		return padFor(tok, pad)
+	}
+	return ""
+}
+
+// Stream serves a reverse-direction subscription: n elements carrying (tok, seq).
+func (h *RevHandler) Stream(ctx context.Context, tok string, n int, pad int) (<-chan Item, error) {
+	ch := make(chan Item)
+	go func() {
+		defer close(ch)
+		for i := 0; i < n; i++ {
+			select {
+			case ch <- Item{Tok: tok, Seq: i, Pad: revStreamPad(tok, i, pad)}:
+			case <-ctx.Done():
+				return
+			}
+		}
+	}()
+	return ch, nil
 }
 
 // RevHandler2 is a second, independent client-side handler (namespace Rev2).
